@@ -149,7 +149,7 @@ func genStaticFile(r *prog.Rand, pkg, fname string, fileIdx int, header string) 
 
 type hazard struct {
 	Feature string
-	Expect  string // accept | diagnostic
+	Expect  string            // accept | diagnostic
 	Files   map[string]string // relative path -> content (first key p.go is the cff file)
 }
 
